@@ -68,6 +68,7 @@ def run(chk):
     rule_strslice(chk, reach)
     rule_admitted_kinds(chk)
     rule_elab_total(chk)
+    rule_scope_walk(chk)
 
 
 def rule_elab_total(chk):
@@ -86,6 +87,47 @@ def rule_elab_total(chk):
         total += cases
         chk.ob("C08.elab/" + fam, not msgs, "%d operand combinations: none aborts" % cases if not msgs else msgs[0], where(pe) if pe else "typer", sample={"family": fam, "cases": cases})
     chk.floor("C08.floor/elab-cases", total, 20000, "operand combinations read", where(pe) if pe else "typer")
+
+
+def rule_scope_walk(chk):
+    """Context::walk_into_scopes read on a model scope tree (root > A > {B, enum E}, B > C): every qualified prefix of
+    one, two and three names - existing and not - is resolved to its scope or to `None`, without aborting."""
+    import interp as I
+    f = chk.facts
+    w = f.fn("walk_into_scopes", "rssl_typer")
+    if not w:
+        chk.note("C08.scopes: walk_into_scopes not found; not evaluated")
+        return
+
+    def scope(**syms):
+        m = I.HMap()
+        for name, lst in syms.items():
+            m.put(name, lst)
+        return I.Enum("ScopeData", None, {"symbols": m, "parent_scope": 0})
+    ns = lambda i: I.Enum("ScopeSymbol", "Namespace", {"0": i})
+    en = lambda i: I.Enum("ScopeSymbol", "EnumScope", {"0": i})
+    fn_ = I.Enum("ScopeSymbol", "Function", {"0": I.Enum("FunctionId", None, {"0": 0})})
+    scopes = [scope(A=[ns(1)], f=[fn_]), scope(B=[ns(2)], E=[en(3)], f=[fn_, fn_]), scope(C=[ns(4)], x=[fn_]), scope(P=[fn_]), scope(y=[fn_])]
+    ctx = I.Enum("Context", None, {"scopes": scopes})
+    loc = lambda s_: I.Enum("Located", None, {"node": s_, "location": I.Opaque("loc")})
+    CASES = [(0, ["A"], 1), (0, ["A", "B"], 2), (0, ["A", "E"], 3), (0, ["A", "B", "C"], 4), (1, ["B", "C"], 4), (0, ["X"], None), (0, ["A", "X"], None),
+             (0, ["A", "B", "X"], None), (0, ["f"], None), (0, ["A", "f"], None), (0, [], 0), (2, ["C"], 4), (0, ["B"], None), (0, ["A", "A"], None)]
+    ip = I.Interp(f, max_depth=6, extern={})
+    bad = None
+    for start, names, want in CASES:
+        what = "%s looked up from scope %d" % ("::".join(names) or "(no qualifier)", start)
+        try:
+            r = ip.apply(w, [ctx, start, [loc(n_) for n_ in names]])
+        except I.Unknown as e:
+            if "panicking" in str(e):
+                bad = bad or "%s aborts the type checker (%s)" % (what, str(e)[:70])
+                continue
+            chk.note("C08.scopes: walk_into_scopes is not readable (%s)" % str(e)[:80])
+            return
+        got = r.fields.get("0") if isinstance(r, I.Enum) and r.variant == "Some" else (None if isinstance(r, I.Enum) and r.variant == "None" else "?")
+        if got != want:
+            bad = bad or "%s resolves to %s, must be %s" % (what, got, want)
+    chk.ob("C08.scopes/qualified-path", bad is None, "%d qualified prefixes of depth 0..3 resolve to their scope or to nothing, none aborts" % len(CASES) if bad is None else bad, where(w))
 
 
 def rule_unimpl(chk, reach):
